@@ -306,6 +306,31 @@ theorem anonymized_overlay_never_raw (s : State) (cid : Bytes) (hlen : cid.lengt
   rw [hst] at hplain
   simp [State.anonymized, ht, hk] at hplain
 
+/-- **Loading a plain overlay revokes nothing.**  `Community.__init__` without `settings.anonymize` leaves the
+    endpoint exactly as it was — in particular the anonymity another overlay instance (or an explicit
+    `set_anonymity`) enabled for the same community id / prefix. -/
+theorem plain_overlay_load_changes_nothing (s : State) (cid : Bytes) :
+    step s (.overlay cid false) = (s, []) := by
+  simp [step]
+
+/-- **Overlays that share a prefix.**  After an overlay has opted in, loading any number of further overlay
+    instances — anonymized or plain, under the same community id or others — interleaved with anything except an
+    explicit `set_anonymity(prefix, False)`, never lets a packet with that prefix reach the raw socket.  (This is
+    `anonymized_overlay_never_raw` with the later loads spelled out as part of the history.) -/
+theorem shared_prefix_stays_anonymized (s : State) (cid : Bytes) (hlen : cid.length = 20) (pre post : List Op)
+    (others : List (Bytes × Bool))
+    (hpre : ∀ o ∈ pre, o ≠ .setAnonymity (overlayPrefix cid) false)
+    (hpost : ∀ o ∈ post, o ≠ .setAnonymity (overlayPrefix cid) false) :
+    ∀ x ∈ trace (step s (.overlay cid true)).1 (pre ++ others.map (fun cb => Op.overlay cb.1 cb.2) ++ post),
+      ∀ a body, Event.raw a (overlayPrefix cid ++ body) ∉ x.2.2 := by
+  apply anonymized_overlay_never_raw s cid hlen
+  intro o ho
+  simp only [List.mem_append, List.mem_map] at ho
+  rcases ho with (ho | ⟨cb, _, rfl⟩) | ho
+  · exact hpre o ho
+  · simp
+  · exact hpost o ho
+
 /-- **Delivery filter by origin.**  `notify_listeners(packet, from_tunnel)` reaches exactly the registered listeners
     whose `anonymize` attribute (absent = False) equals `from_tunnel`, and changes nothing: an anonymized listener is
     never given socket traffic, a plain listener never tunnel traffic. -/
@@ -361,6 +386,13 @@ example : ∃ ops : List Op, (∀ o ∈ ops, o ≠ .setAnonymity (overlayPrefix 
   ⟨[.send 3 (overlayPrefix (List.replicate 20 0xAA) ++ [1]), .setTunnelCommunity true 1,
     .send 3 (overlayPrefix (List.replicate 20 0xAA) ++ [1]), .send 3 (overlayPrefix (List.replicate 20 0xAA) ++ [1])],
    by decide, by decide, by decide⟩
+/-- an anonymized overlay, then a plain instance of the same community id, then an unrelated plain overlay: the first
+    overlay's packet is still not sent raw (queued behind a freshly requested circuit), the unrelated one's is -/
+example : (trace (init 2) [.overlay (List.replicate 20 0xAA) true, .overlay (List.replicate 20 0xAA) false,
+      .overlay (List.replicate 20 0xBB) false, .setTunnelCommunity true 1, .send 3 (pktA 1),
+      .send 4 (overlayPrefix (List.replicate 20 0xBB) ++ [1])]).map (·.2.2)
+    = [[], [], [], [], [.create 1 (some [4]) (some 1)], [.raw 4 (overlayPrefix (List.replicate 20 0xBB) ++ [1])]] := by
+  decide
 /-- delivery filter on a concrete listener set -/
 example : (step stReady (.notify true)).2 = [.deliver 1] ∧ (step stReady (.notify false)).2 = [.deliver 2] := by decide
 
